@@ -4,6 +4,7 @@ package c19
 
 import (
 	"fmt"
+	"time"
 
 	"verif/harness/core"
 	"verif/harness/memnet"
@@ -130,6 +131,12 @@ func runConn(env *script.Env, c Case) (sig, msg, inconclusive string) {
 		if st.State == memnet.Timeout {
 			return "", "", "startup: guard"
 		}
+		if c.Auth == "none" && c.FailAt < 0 {
+			// somebody else logs in meanwhile (another user, other parameters): the context of this
+			// connection's commands still carries this connection's parameters
+			o := env.NewSess()
+			o.Startup([][2]string{{"user", "somebody-else"}, {"database", "elsewhere"}, {"application_name", "bystander"}}, nil)
+		}
 		s.C.Send(cmds)
 	}
 	if c.End == "eof" {
@@ -228,6 +235,9 @@ func runConn(env *script.Env, c Case) (sig, msg, inconclusive string) {
 				return fail("C19/command-context/middleware-value", "%s(%q): context value of middleware %d is %q, want %q", ev.K, ev.Q, i, o.MWKeys[i], chain(i, id))
 			}
 		}
+		if !dupKey(pairs, "user") && (o.User != "u" || o.Server["session_authorization"] != "u") {
+			return fail("C19/command-context/server-params", "%s(%q): the context says user %q / session_authorization %q, this connection's user is \"u\"", ev.K, ev.Q, o.User, o.Server["session_authorization"])
+		}
 		for _, kv := range pairs {
 			if o.Client[kv[0]] != kv[1] && !dupKey(pairs, kv[0]) {
 				return fail("C19/command-context/client-params", "%s(%q): client parameter %q=%q, want %q", ev.K, ev.Q, kv[0], o.Client[kv[0]], kv[1])
@@ -259,6 +269,11 @@ func runConn(env *script.Env, c Case) (sig, msg, inconclusive string) {
 		if o.Stale != 0 {
 			return fail("C19/command-context/not-cancelled", "%s(%q): %d context(s) of earlier commands are not cancelled", ev.K, ev.Q, o.Stale)
 		}
+	}
+	// (the connection is closed from inside the Terminate command, a moment before that command
+	// returns and releases its context: give the connection goroutine time to get there)
+	for t0 := time.Now(); env.LiveContexts(id) != 0 && time.Since(t0) < script.Guard/2; {
+		time.Sleep(200 * time.Microsecond)
 	}
 	if n := env.LiveContexts(id); n != 0 {
 		return fail("C19/contexts-live-after-close", "%d per-command context(s) still not cancelled after the connection ended", n)
